@@ -313,6 +313,55 @@ example : parseUDPHeader toyIP [0, 0, 0, 3, 1, 97, 0, 53, 255] = .ok ⟨[97], 53
 
 example : holdsUdp toyIP [0, 0, 0, 3, 1, 97, 0, 53, 255] ⟨.fail .tooShort, none⟩ = false := by decide
 
+/-! ### What the listener does with the parsed request (`handleConnection`) -/
+
+/-- `handleConnection` hands the handshake result on, in this order; the DoT port is the literal 853;
+`SendSuccessWithBind` takes `bindAddr.IP.To4()` and writes the port big-endian. -/
+theorem C20_skel_connection :
+    Skel.Listener_handleConnection =
+      ["l.Handshake", "conn.Close", "l.handleConnect", "l.handleUDPAssociate", "l.SendError", "conn.Close"] ∧
+    Skel.Listener_handleConnect =
+      ["l.SendError", "conn.Close", "l.SendError", "conn.Close", "l.SendSuccess",
+       "tunnelCreator.CreateSOCKS5Tunnel", "l.SendError", "conn.Close"] ∧
+    Skel.Listener_handleConnect_lits = [853] ∧
+    Skel.Listener_handleUDPAssociate =
+      ["l.SendError", "conn.Close", "udpRelayCreator.CreateUDPRelay", "l.SendError", "conn.Close",
+       "l.SendSuccessWithBind"] ∧
+    Skel.Listener_SendSuccess = ["conn.Write"] ∧ Skel.Listener_SendSuccess_lits = [0, 0, 0, 0, 0, 0, 0] ∧
+    Skel.Listener_SendSuccessWithBind = ["bindAddr.IP.To4", "conn.Write"] ∧
+    Skel.Listener_SendSuccessWithBind_lits = [0, 0, 1, 2, 3, 8, 255] ∧
+    socks5.VirtualDNSIP = "10.0.0.1" ∧ socks5.DefaultDNSServer = "119.29.29.29" := by decide
+
+/-- **From the bytes on the wire to the tunnel, every byte string, every chunking, every creator
+behaviour.**  A rejected negotiation creates no tunnel or relay and the connection is closed after
+the prescribed reply.  An accepted CONNECT reaches the tunnel creator exactly once, with the RFC's
+host text and port, this listener's mapping id, target client and secret, and with every byte that
+followed the request still unread on the connection (payload intact); the application is then told
+success (`REP = 0`) or, if the creator failed, a failure reply and the connection is closed.  (The
+listener's own policy refuses `10.0.0.1:853` with a failure reply.)  An accepted UDP ASSOCIATE
+creates the relay once and announces its port and IPv4 address; without a relay creator the reply is
+"command not supported". -/
+theorem C20_connection (c : IPText) (cfg : ConnCfg) (chunks : List Bytes) (tail : Tail) :
+    holdsConn c cfg chunks.flatten (handleConnection c cfg ⟨chunks, tail⟩) = true :=
+  conn_holds c cfg chunks tail
+
+def sampleCfg : ConnCfg := ⟨[109], 42, [115], true, true, true, true, [127, 0, 0, 1], 4660⟩
+
+/-- Non-vacuity: CONNECT with two bytes of application data pipelined behind the request. -/
+example :
+    handleConnection toyIP sampleCfg ⟨[[5, 1, 0, 5], [1, 0, 1, 1, 2, 3, 4, 0, 80, 71], [69]], .eof⟩ =
+      ⟨[.tunnel [109] 42 [1, 2, 3, 4] 80 [115] [71, 69]], [5, 0, 5, 0, 0, 1, 0, 0, 0, 0, 0, 0], false⟩ := by decide
+
+example :
+    handleConnection toyIP sampleCfg ⟨[[5, 1, 0, 5, 3, 0, 1, 0, 0, 0, 0, 0, 0]], .eof⟩ =
+      ⟨[.relay [109] 42 [115]], [5, 0, 5, 0, 0, 1, 127, 0, 0, 1, 18, 52], false⟩ := by decide
+
+/-- `holdsConn` rejects a tunnel opened to the right host but with a byte of the payload missing. -/
+example :
+    holdsConn toyIP sampleCfg [5, 1, 0, 5, 1, 0, 1, 1, 2, 3, 4, 0, 80, 71, 69]
+      ⟨[.tunnel [109] 42 [1, 2, 3, 4] 80 [115] [69]], [5, 0, 5, 0, 0, 1, 0, 0, 0, 0, 0, 0], false⟩ = false := by
+  decide
+
 /-! ### Datagrams in flight: `UDPRelay.readLoop` and its `handlePacket` goroutines -/
 
 /-- `readLoop` detaches the datagram from its read buffer (`make` + `copy`) *before* the `go`
